@@ -22,7 +22,8 @@ EXPLANATION = (
     "Controller.dispatch replies at once for a non-waiting request whose "
     "operation returned a Future; R5 every sleep in the supervisor coroutines is "
     "a yielded loop sleep. Hooks are user code and outside the claim. Decides "
-    "these necessary conditions, not the numeric time bound.")
+    "these necessary conditions, not the numeric time bound."
+    "R6 exclusive-slot discipline (shared with C10 R1) and R7 waiting requests are always answered (shared with C06 R2/R4/R6). ")
 ASSUMPTIONS = ["posix platform (IS_WINDOWS branches pruned)",
                "hooks / stream classes / plugins are user code and not analysed",
                "table exceptions: dstats' psutil cpu_percent(interval=0.01) (bounded 10 ms); "
